@@ -5,6 +5,7 @@ import (
 	"go/types"
 	"math"
 	"math/big"
+	"sort"
 	"strings"
 
 	"golang.org/x/tools/go/ssa"
@@ -78,6 +79,63 @@ func init() {
 		in.drainTasks()
 		return nil
 	}
+	// sync.Mutex / sync.RWMutex: sequential semantics with the lock state tracked, so that a lock
+	// acquired twice by one task (the call would never return), an unlock of an unlocked mutex
+	// (a Go runtime fatal error) and a lock still held once the harness and its tasks are done are
+	// failures. A nested task that meets a lock held by an outer task would block until the outer
+	// one releases it; that order is not modelled and such a lock is no longer tracked.
+	lockOp := func(write, acquire bool) func(in *Interp, fn *ssa.Function, a []Value) Value {
+		return func(in *Interp, fn *ssa.Function, a []Value) Value {
+			p, ok := a[0].(Ptr)
+			if !ok || p.Obj == 0 {
+				in.raise("nil pointer dereference", nil)
+			}
+			k := lockKey(p)
+			st := in.locks[k]
+			if st == nil {
+				st = &lockState{}
+				in.locks[k] = st
+			}
+			if st.untracked {
+				return nil
+			}
+			held := st.writer || st.readers > 0
+			if acquire {
+				if held && (write || st.writer) {
+					if st.depth != in.taskDepth {
+						st.untracked = true
+						return nil
+					}
+					in.raise("lock acquired while still held by the same task, first at "+st.site+": the call never returns", nil)
+				}
+				if write {
+					st.writer = true
+				} else {
+					st.readers++
+				}
+				st.depth, st.site = in.taskDepth, in.whereLine()
+				return nil
+			}
+			if write {
+				if !st.writer {
+					in.raise("sync: unlock of unlocked mutex", nil)
+				}
+				st.writer = false
+			} else {
+				if st.readers == 0 {
+					in.raise("sync: RUnlock of unlocked RWMutex", nil)
+				}
+				st.readers--
+			}
+			return nil
+		}
+	}
+	intrinsics["(*sync.Mutex).Lock"] = lockOp(true, true)
+	intrinsics["(*sync.Mutex).Unlock"] = lockOp(true, false)
+	intrinsics["(*sync.RWMutex).Lock"] = lockOp(true, true)
+	intrinsics["(*sync.RWMutex).Unlock"] = lockOp(true, false)
+	intrinsics["(*sync.RWMutex).RLock"] = lockOp(false, true)
+	intrinsics["(*sync.RWMutex).RUnlock"] = lockOp(false, false)
 	intrinsics["(*sync.Once).Do"] = func(in *Interp, fn *ssa.Function, a []Value) Value {
 		p := a[0].(Ptr)
 		key := "once|" + in.identKey(p)
@@ -638,4 +696,38 @@ func (in *Interp) ctxMethod(op Opaque, name string, rt types.Type) (Value, bool)
 		return Iface{}, true
 	}
 	return nil, false
+}
+
+func lockKey(p Ptr) string {
+	var sb strings.Builder
+	fmt.Fprintf(&sb, "%d", p.Obj)
+	for _, s := range p.Path {
+		if s.Idx != nil {
+			fmt.Fprintf(&sb, "[%p]", s.Idx)
+		} else {
+			fmt.Fprintf(&sb, ".%d", s.Field)
+		}
+	}
+	return sb.String()
+}
+
+// checkLocksReleased: once the harness has returned and every task has run, a mutex that is still
+// held was leaked by an operation that has finished: the next writer blocks forever.
+func (in *Interp) checkLocksReleased() {
+	if len(in.tasks) > 0 {
+		return
+	}
+	keys := make([]string, 0, len(in.locks))
+	for k := range in.locks {
+		keys = append(keys, k)
+	}
+	sort.Strings(keys)
+	for _, k := range keys {
+		st := in.locks[k]
+		if st.untracked || !(st.writer || st.readers > 0) {
+			continue
+		}
+		in.recordFailure("panic", "lock still held after the operation returned: the next writer blocks forever", st.site, "mutex acquired at "+st.site+" is never released on this path", nil)
+		return
+	}
 }
